@@ -141,9 +141,7 @@ func main() {
 				"asset_refs_carried": obs.NTouched, "resumed_exits": obs.NResumedExits, "inspections": obs.Inspections})
 		}
 		oracle(c, obs, res)
-		if o.Tier != "quick" || strings.HasPrefix(c.Label, "corpus-") {
-			probe(c, obs, res)
-		}
+		probe(c, obs, res)
 
 		if cur == nil {
 			cur = &caseFile{f: hx.NewCoqFile(fmt.Sprintf("cases_C20_%03d.v", nfile), header)}
